@@ -23,7 +23,9 @@ static void c06_run(vf_case *c)
     gen_spec g; run_opts o;
     gen_spec_random(r, P, &g, 2, 40, 1);
     static const int pats[] = { PAT_RANDOM_DIAG, PAT_RANDOM_DIAG, PAT_BAND, PAT_ARROW, PAT_BLOCKTRI, PAT_GRID, PAT_DENSE, PAT_BLOCKDIAG };
-    g.pattern = rng_pick(r, pats, 8); g.values = rng_bool(r, 0.5) ? VAL_UNIF : VAL_ROWSCALED; g.scale_exp = rng_int(r, 1, 3); g.explicit_zeros = 0;
+    int exactcls = rng_bool(r, 0.3);      /* exact-arithmetic value classes: exact zeros can meet the remembered pivots */
+    g.pattern = rng_pick(r, pats, 8); g.values = exactcls ? (rng_bool(r, 0.5) ? VAL_SMALLINT : VAL_POW2) : rng_bool(r, 0.5) ? VAL_UNIF : VAL_ROWSCALED; g.scale_exp = rng_int(r, 1, 3); g.explicit_zeros = 0;
+    if (exactcls && g.n > 12) g.n = g.m = rng_int(r, 2, 12);
     vf_mat A; gen_matrix(r, P, &g, &A);
     gen_run_opts(r, &o, 1);
     gen_tuning(r, 1);
@@ -39,7 +41,7 @@ static void c06_run(vf_case *c)
     if (use_ws) { D.lwork = (int_t)generous_lwork(P, n, nnz); work = malloc((size_t)D.lwork); D.work = work; }
     superlu_options_t xo = o.opt; xo.PrintStat = NO; xo.Equil = rng_bool(r, 0.7) ? YES : NO;
     if (xo.ColPerm == MY_PERMC) rng_perm(r, D.perm_c, n);
-    vf_tag(c, "prec=%c", P->letter); vf_tag(c, "%s", o.rowmajor ? "NR" : "NC"); vf_tag(c, "mem=%s", use_ws ? "workspace" : "malloc"); vf_tag(c, "equil=%d", xo.Equil == YES);
+    vf_tag(c, "prec=%c", P->letter); vf_tag(c, "%s", o.rowmajor ? "NR" : "NC"); vf_tag(c, "mem=%s", use_ws ? "workspace" : "malloc"); vf_tag(c, "equil=%d", xo.Equil == YES); vf_tag(c, "u=%g", xo.DiagPivotThresh); if (exactcls) { vf_tag(c, "exact-values"); xo.Equil = NO; }
     vf_sig_u64(c, mat_pattern_hash(&A)); vf_sig_u64(c, (uint64_t)o.rowmajor * 2 + (uint64_t)use_ws);
     int factored_ok = 0, ever_factored = 0, steps_judged = 0; ld cf = P->cplx ? 16 : 8;
     for (int step = 0; step < len && c->verdict != 1; step++) {
@@ -53,7 +55,7 @@ static void c06_run(vf_case *c)
         fhash h0;
         if (op != 3) {
             /* new values for this step */
-            int vm = step == 0 ? 1 : rng_int(r, 0, 4);
+            int vm = step == 0 ? 1 : rng_int(r, 0, exactcls ? 6 : 4);
             for (int_t k = 0; k < nnz; k++) {
                 ldc base = step == 0 ? V0[k] : V[k], nv;
                 switch (vm) {
@@ -61,7 +63,9 @@ static void c06_run(vf_case *c)
                 case 1: nv = base; break;                                                                   /* same values */
                 case 2: nv = (2 * rng_unif(r) - 1) + (P->cplx ? (2 * rng_unif(r) - 1) * I : 0); if (cabsl(nv) < 1e-3L) nv = 0.5L; break;   /* unrelated values */
                 case 3: nv = base * 1024.0L; break;                                                         /* global rescaling */
-                default: { const NCformat *s = D.A.Store; nv = base * ldexpl(1.0L, (int)(s->rowind[k] % 7) - 3); } break;   /* per-line rescaling */
+                case 4: { const NCformat *s = D.A.Store; nv = base * ldexpl(1.0L, (int)(s->rowind[k] % 7) - 3); } break;   /* per-line rescaling */
+                case 5: do { nv = (ld)rng_int(r, -2, 2) + (P->cplx ? (ld)rng_int(r, -1, 1) * I : 0); } while (nv == 0); break;              /* small integers: exact cancellations */
+                default: nv = ldexpl(rng_bool(r, 0.5) ? 1.0L : -1.0L, rng_int(r, -1, 1)); break;                                         /* +-2^k */
                 }
                 V[k] = P->round(nv);
             }
@@ -81,6 +85,7 @@ static void c06_run(vf_case *c)
             if (info < 0 || (info > n + 1 && !use_ws)) vf_viol(c, "info-unexpected", "step %d %s: info=%lld", step, opn[op], (long long)info);
             if (!factored_ok) {
                 vf_tag(c, info <= n ? "step-singular" : "step-nomem");
+                if (info > 0 && info <= n) { vf_mat F; xdrv_factored_matrix(&D, &F); char rt[40]; snprintf(rt, sizeof rt, "step %d %s", step, opn[op]); judge_singular(c, P, &F, D.perm_r, D.perm_c, &D.L, &D.U, info, rt); mat_free(&F); }
                 if (info > 0 && info <= n && op != 0) {   /* fresh twin: a refactorization must not fail where a fresh one succeeds */
                     vf_mat T; T = A; xdrv D2; ldc *tv = malloc(sizeof(ldc) * (size_t)(nnz + 1));
                     xdrv_init(&D2, P, &A, o.rowmajor, 0, 0, 0, NULL, 0); set_values(&D2, V, nnz); (void)T; (void)tv;
